@@ -355,10 +355,12 @@ func (l *Lexer) readIdentifier() string {
 func (l *Lexer) readString() (string, int, int, int) {
 	var sb strings.Builder
 	var endLine, endChar, endUtf8Char int
+	isFirstPart := true
 	for l.ch == '"' {
-		if sb.Len() > 0 {
+		if !isFirstPart {
 			sb.WriteString("\n")
 		}
+		isFirstPart = false
 		l.readChar()
 		for l.ch != '"' && l.ch != 0 {
 			if l.skipNewlineWhitespace() {
